@@ -105,6 +105,59 @@ BuildImpl(t) ==
                ELSE IF t.op = "conj" /\ Cardinality(UNION Range(outs)) # SumCard(outs) THEN "ValueError"
                ELSE "ok"
 
+\* ------------------------------------------------------------------ argument presentations
+\* Every key-collection argument of an atom's constructor is declared Iterable[Tensor] (the member
+\* lists of Stack / Conjunction: Sequence[Transform]).  A PRESENTATION of such an argument is a form
+\* together with an enumeration of the collection.  Traversing a presentation yields the
+\* enumeration; a one-shot form (iterator, generator) yields it on the FIRST traversal only and
+\* nothing afterwards.  The contract of Iterable allows a constructor ONE traversal per argument.
+\* Everything above and below (Constructible, Req, Out, BuildImpl, Apply) is a function of the term
+\* alone: the verdicts do not depend on the presentation.  MC_Transforms checks (PresentationFree)
+\* that the atom a one-traversal constructor obtains from ANY admissible presentation is the term
+\* itself, and exports the table of admissible forms (FormTable) from which the replay and the
+\* trace driver draw the presentation of every argument of every atom occurrence.
+Forms      == {"list", "tuple", "set", "dictkeys", "iter", "gen"}
+SeqForms   == {"list", "tuple"}                 \* what a Sequence argument can be
+OneShot(f) == f \in {"iter", "gen"}
+Unordered(f) == f = "set"                       \* the enumeration order is not the caller's
+Dedups(f)  == f \in {"set", "dictkeys"}         \* cannot carry a collection with a repeated key
+ArgNames(op) == CASE op = "init"   -> <<"values">>
+                  [] op = "select" -> <<"keys", "required_keys">>
+                  [] op = "diag"   -> <<"considered">>
+                  [] op = "acc"    -> <<"required_keys">>
+                  [] OTHER         -> <<"transforms">>
+\* the order (and multiplicity) of the enumeration is part of the argument only for Diagonalize
+OrderedArg(op, i) == op = "diag"
+\* the enumerations of argument i of atom x a caller may hand over
+ArgEnums(x, i) == CASE x.op = "init"   -> PermSeqs(x.K)
+                    [] x.op = "select" -> IF i = 1 THEN PermSeqs(x.K) ELSE PermSeqs(x.R)
+                    [] x.op = "diag"   -> {x.ks}
+                    [] OTHER           -> PermSeqs(x.K)
+Admissible(f, op, i, items) == /\ f \in Forms
+                               /\ OrderedArg(op, i) => ~Unordered(f)
+                               /\ Dedups(f) => NoDup(items)
+\* what the n-th traversal of a presentation yields
+Seen(f, items, n) == IF OneShot(f) /\ n > 1 THEN <<>> ELSE items
+\* the atom a constructor that traverses each argument once obtains
+Rebuilt(x, fs, en) ==
+    CASE x.op = "init"   -> TInit(Range(Seen(fs[1], en[1], 1)))
+      [] x.op = "select" -> TSelect(Range(Seen(fs[1], en[1], 1)), Range(Seen(fs[2], en[2], 1)))
+      [] x.op = "diag"   -> TDiag(Seen(fs[1], en[1], 1))
+      [] OTHER           -> TAcc(Range(Seen(fs[1], en[1], 1)))
+IsAtom(x) == x.op \in {"init", "select", "diag", "acc"}
+PresentationFreeAtom(x) ==
+    LET n == Len(ArgNames(x.op)) IN
+    \A fs \in [1..n -> Forms] : \A en \in [1..n -> UNION {ArgEnums(x, i) : i \in 1..n}] :
+       (\A i \in 1..n : en[i] \in ArgEnums(x, i) /\ Admissible(fs[i], x.op, i, en[i])) => Rebuilt(x, fs, en) = x
+\* admissible forms per constructor argument: for a duplicate-free collection / for one with a repeated key
+FormRow(op, i) == [op |-> op, arg |-> ArgNames(op)[i],
+                   forms |-> {f \in Forms : (OrderedArg(op, i) => ~Unordered(f))},
+                   dupforms |-> {f \in Forms : (OrderedArg(op, i) => ~Unordered(f)) /\ ~Dedups(f)},
+                   oneshot |-> {f \in Forms : OneShot(f)}]
+FormTable == <<FormRow("init", 1), FormRow("select", 1), FormRow("select", 2), FormRow("diag", 1), FormRow("acc", 1),
+               [op |-> "stack", arg |-> "transforms", forms |-> SeqForms, dupforms |-> SeqForms, oneshot |-> {}],
+               [op |-> "conj", arg |-> "transforms", forms |-> SeqForms, dupforms |-> SeqForms, oneshot |-> {}]>>
+
 \* ------------------------------------------------------------------ dictionaries with values
 EmptyFn == [k \in {} |-> 0]
 EmptyD == [type |-> "Empty", m |-> EmptyFn]
